@@ -19,6 +19,19 @@ CHECKS = {
    note="as C02"),
 }
 
+PT_NOTE = "trusts the harness's 60-line ledger/limit recomputation and the tolerance band of DESIGN 1.6; parameter values at the PT alphabet points only; bounded depth (FULL(d), DEV(L,k))"
+CHECKS.update({
+ "C01": dict(level="model_checking", ref="3 C01", technique="exhaustive operation-sequence exploration (E-SEQ FULL(d)+DEV(L,k)) of real Locomotive/Consist objects over state-relative demand letters, ledger oracle on every prefix, traces re-run through LocomotiveSimulation::walk",
+   text="Every demand sequence up to the stated depth / deviation bound from a 52-letter alphabet (demands relative to the limits just published, four step sizes incl. one that carries the small pack through its SOC window) on every powertrain configuration of the PT family is executed on the real objects exactly as the simulation loop drives them; every per-step hand-off and every cumulative identity of the energy ledger is evaluated on every accepted step. Bounded exhaustive, float-valued tree (no state merging).",
+   note=PT_NOTE),
+ "C08": dict(level="model_checking", ref="3 C08", technique="exhaustive operation-sequence exploration (E-SEQ) with the engine-command dimension (on/None/off), second-law oracle on every accepted step",
+   text="The C01 exploration with engine on/None/off letters added; per component loss >= 0, 0 < eta <= 1, |out| <= |in| in the direction of flow, cumulative fuel/loss/dyn-brake energies monotone, no dyn-brake power without braking demand, engine off => no fuel, no aux.",
+   note=PT_NOTE),
+ "C09": dict(level="model_checking", ref="3 C09", technique="exhaustive operation-sequence exploration (E-SEQ) with adversarial letters at / just below / just above every published limit; accepted over-limit step = violation",
+   text="Demands are chosen relative to the limits the object has just published (at, 1e-9 below, just above the code's tolerance, 20 % above; regen and dyn-brake likewise, -1.01 x drivetrain rating); on every accepted step ratings, transient limit, ramp rate (against the shaft power the generator actually took), battery charge/discharge limits, SOC window and sanity of the published limits are checked.",
+   note=PT_NOTE),
+})
+
 def main():
     checks = []
     for pid in sorted(CHECKS):
